@@ -796,6 +796,25 @@ class Tr:
                 st[0] = ns
                 return out
             raise Unsupported("++/-- on %s" % show(tgt))
+        if k == "bin" and c["n"] in ("+=", "-=") and len(c["a"]) == 2:
+            tgt = c["a"][0]
+            b, t, kd = self.E(c["a"][1], st, env)
+            if kd == "nat" and tgt["k"] == "field" and self.f_by_cpp.get(tgt["n"], (None, None))[1] == "nat":
+                coq = self.f_by_cpp[tgt["n"]][0]
+                ns = self.fresh("s")
+                if c["n"] == "+=":
+                    out = b + ["let %s := set_%s %s ((%s %s) + %s) in" % (ns, coq, st[0], coq, st[0], t)]
+                else:
+                    out = b + ["do %s <- (if (%s %s) <? %s then UB \"%s -= underflows\" else Ok (set_%s %s ((%s %s) - %s)));" % (
+                        ns, coq, st[0], t, tgt["n"], coq, st[0], coq, st[0], t)]
+                st[0] = ns
+                return out
+            if kd == "nat" and tgt["k"] == "ref" and tgt["n"] in env and env[tgt["n"]][1] == "nat" and c["n"] == "+=":
+                x = self.fresh("v_" + tgt["n"] + "_")
+                out = b + ["let %s := (%s + %s) in" % (x, env[tgt["n"]][0], t)]
+                env[tgt["n"]] = (x, "nat")
+                return out
+            raise Unsupported("%s on %s" % (c["n"], show(tgt)))
         if k == "op" and c["n"] in ("operator++", "operator--") and len(c["a"]) == 1:
             tgt = c["a"][0]
             if tgt["k"] == "field" and self.f_by_cpp[tgt["n"]][1] == "liter":
